@@ -21,7 +21,7 @@ import z3
 from symx import core
 from symx.graph import Runner, grid, layer_keys_ok, run_blocks
 from symx.oracle import AND, EQ, IMPLIES, NOT, OR, cumsum0
-from symx.sarr import prefix_lemmas, BoundsLog, SArr, assemble, leaf, same_array
+from symx.sarr import prefix_lemmas, BoundsLog, SArr, assemble, concatenate_nested, leaf, same_array
 from symx.world import SHIM_LIST, SymNp
 
 from .common import Cfg, collect_graph, lower_tree, world
@@ -52,6 +52,7 @@ DB = "dask.blockwise"
 MT = "dask_array._materialize"
 MODS = [MT, "dask_array.core._blockwise_funcs", "dask_array.core._conversion", EX, BW, CU, RC, FA, IOB, SB, SU, "dask_array.slicing", CO, NC, TR, XP, SQ, BT, CC, SK, RD, RCM, SHF, VIX, ARG, "dask_array._overlap", "dask_array._map_blocks", "dask_array._chunk", "dask.layers", "dask_array.reductions._sliding_window", "dask_array.manipulation._reshape", "dask_array.reductions._arg_reduction", "dask_array.creation._diag", "dask_array.creation._diagonal", "dask_array.routines._unique", "dask_array.creation._ones_zeros", "dask_array.creation._utils", "dask_array.routines._topk", "dask_array.io._from_graph", "dask_array.manipulation._roll", "dask_array.manipulation._flip", "dask_array.creation._tile", "dask_array.creation._pad", "dask_array.creation._repeat", "dask_array.routines._diff", "dask_array.reductions._cumulative", "dask_array.routines._where", "dask_array.stacking._block", "dask_array.stacking._simple", "dask_array.routines._insert_delete", "dask_array.routines._triangular", "dask_array.routines._outer", "dask_array._ufunc", DB]
 STUBS = SHIM_LIST + [
+    "concatenate3 -> the array model's nested concatenation (called by the repository's own finalize and as a block kernel)",
     "expression classes -> symx.nodes (real methods on cloned code; constructors/tokenize bypassed, structural names); the "
     "Array collection class -> subclass with cloned methods",
     "sources -> symbolic FromArray nodes whose blocks are NumPy slices of a symbolic array (uninterpreted element function)",
@@ -112,7 +113,8 @@ def W(E, key="catalog"):
     cfg = Cfg({"array.rechunk.method": "tasks", "array.unify-chunks-policy": "auto", "array.unify-chunks-limit": None,
                "array.slicing.split-large-chunks": None})
     w = world(key, E.symbolic, MODS, nodes=True, desugar=(EX, CU, DB),
-              extra=dict(config=cfg, warnings=_Warn(), plan_rechunk=lambda old, new, *a, **k: [new], meta_from_array=_meta_from_array),
+              extra=dict(config=cfg, warnings=_Warn(), plan_rechunk=lambda old, new, *a, **k: [new], meta_from_array=_meta_from_array,
+                         concatenate3=concatenate_nested),
               clone_classes=[(CO, "Array")])
     if E.symbolic and not isinstance(w.ns[SHF].get("np"), _ShuffleNp):
         w.ns[SHF]["np"] = _ShuffleNp()
@@ -501,6 +503,13 @@ def p_map2(w, a, b, op=np.add):
     return Prog(out.expr, op(a.ref, b.ref), dsk)
 
 
+def _map_blocks_with_column(w, E):
+    """map_blocks(np.add, x, col): col has the rows' chunks and one column (it broadcasts along x's last axis)"""
+    x = source(w, E, "x", (2, 2))
+    col = source(w, E, "col", (2, 1), chunks=[x.node.chunks[0], (1,)])
+    return p_map2(w, x, col)
+
+
 def _shared_through_two_permutations(w, E):
     """a shared opaque node reached along two paths with different axis permutations (cube with the same chunks on every axis)"""
     c = source(w, E, "c", (2,)).node.chunks[0]
@@ -690,6 +699,7 @@ def programs(tier):
     reg("sum(x3,axis=0,split_every=2)", lambda w, E: p_sum(w, source(w, E, "x", (3,)), 0, split_every=2), 2)
     reg("sum(x2x3,axis=1)", lambda w, E: p_sum(w, source(w, E, "x", (2, 3)), 1), 3)
     reg("sum(x2x2,axis=0,keepdims)[:,a:b]", lambda w, E: p_slice(w, p_sum(w, source(w, E, "x", (2, 2)), 0, keepdims=True), raw_index(E, ((0, 0, None), F))), 5)
+    reg("sum(x2x2,axis=0,keepdims)[a:b,c:d]", lambda w, E: p_slice(w, p_sum(w, source(w, E, "x", (2, 2)), 0, keepdims=True), raw_index(E, (F, F))), 8)
     reg("sum(x2x2,axis=1)[a:b]", lambda w, E: p_slice(w, p_sum(w, source(w, E, "x", (2, 2)), 1), raw_index(E, (F,))), 5)
     reg("sum(x2x2,axis=0)[i]", lambda w, E: p_slice(w, p_sum(w, source(w, E, "x", (2, 2)), 0), raw_index(E, ("i",))), 4)
     reg("sum(x2+y2,axis=0)", lambda w, E: p_sum(w, _add_aligned(w, E, (2,)), 0), 3)
@@ -703,6 +713,8 @@ def programs(tier):
     reg("x3[[2,0,1]]", lambda w, E: p_take(w, E, source(w, E, "x", (3,)), 0, [2, 0, 1]), 6)
     reg("broadcast_to(x2+1,(n,)+shape)[:,[1,0,0]]", lambda w, E: p_take(w, E, p_broadcast(w, p_elemwise(w, plus_one_ufunc, source(w, E, "x", (2,))), (E.int("lead", 1),)), 1, [1, 0, 0]), 6)
     reg("broadcast_to(x2,(n,)+shape)[[0,0],:]", lambda w, E: p_take(w, E, p_broadcast(w, source(w, E, "x", (2,)), (E.int("lead", 1),)), 0, [0, 0]), 6)
+    reg("(x2x2+w[one block])[:,[1,0,0]]", lambda w, E: p_take(w, E, _add_row(w, E), 1, [1, 0, 0]), 6)
+    reg("x2x2[i,j]+x2x2[i,j:j+1] (same region, different dropped axes)", lambda w, E: _same_region_two_ways(w, E), 5)
     reg("x2x2[:,[1,0,0]]", lambda w, E: p_take(w, E, source(w, E, "x", (2, 2)), 1, [1, 0, 0]), 6)
     reg("(x2+y2)[[1,2,0]]", lambda w, E: p_take(w, E, _add_aligned(w, E, (2,)), 0, [1, 2, 0]), 8)
     reg("transpose(x2x2)[[1,0]]", lambda w, E: p_take(w, E, p_transpose(w, source(w, E, "x", (2, 2)), (1, 0)), 0, [1, 0]), 8)
@@ -723,6 +735,7 @@ def programs(tier):
     reg("diag(x[2+2,1+3],k=1)", lambda w, E: p_diag(w, E, source(w, E, "x", (2, 2), chunks=[(2, 2), (1, 3)]), 1), 2)
     reg("T(map(T(y,(1,2,0))),(0,2,1))+T(y,(2,1,0)), y=map(x2x2x2) shared", lambda w, E: _shared_through_two_permutations(w, E), 8)
     reg("map_blocks(np.add,y[1],x1) (length-1 operand first)", lambda w, E: p_map2(w, source(w, E, "y", (1,), chunks=[(1,)]), source(w, E, "x", (1,))), 2)
+    reg("map_blocks(np.add,x2x2,col[n,1])[:,a:b]", lambda w, E: p_slice(w, _map_blocks_with_column(w, E), raw_index(E, ((0, 0, None), F))), 6)
     reg("map_blocks(np.add,x2,y[1])", lambda w, E: p_map2(w, source(w, E, "x", (2,)), source(w, E, "y", (1,), chunks=[(1,)])), 2)
     reg("map_blocks(np.add,y[1],x2)", lambda w, E: p_map2(w, source(w, E, "y", (1,), chunks=[(1,)]), source(w, E, "x", (2,))), 2)
     # map_blocks with block_info / block_id, with rewrites above and below the call
@@ -878,6 +891,22 @@ def _two_windows(w, E):
     return p_concat(w, [w1, w2], 0)
 
 
+def _add_row(w, E):
+    """x (2x2 blocks) + w, a full-length 1-d operand held in ONE block along x's last axis (not a length-1 broadcast)"""
+    x = source(w, E, "x", (2, 2))
+    wv = source(w, E, "w", (1,), shape=[sum(x.node.chunks[1])])
+    return p_elemwise(w, operator.add, x, wv)
+
+
+def _same_region_two_ways(w, E):
+    x = source(w, E, "x", (2, 2))
+    i, j = E.int("ri"), E.int("rj")
+    E.assume(AND(i >= 0, i < x.node.shape[0], j >= 0, j < x.node.shape[1]))
+    a = p_slice(w, x, (i, j))
+    b = p_slice(w, x, (i, E.slice(j, j + 1, None)))
+    return p_elemwise(w, operator.add, a, b)
+
+
 def _add_dtype(w, E, blocks):
     """an element-wise op with an explicit dtype= that differs from the inferred one (values are exact reals here; what is
     followed is the advertised dtype)"""
@@ -975,7 +1004,7 @@ def computed(E, w, m):
     dsk = dict(_layers(m))
     layer = fin._layer()
     dsk.update(layer)
-    r = Runner(dsk)
+    r = Runner(dsk, kernels=dict(finalize=None))  # the repository's own finalize (its concatenate3 is the array model's)
     return r.get(fin._name)
 
 
